@@ -32,6 +32,7 @@ type Engine struct {
 	mutableGlobals  map[*ssa.Global]bool
 	debugCache      map[*ssa.Function]map[string][]debugVal
 	deadCache       map[*ssa.Function]map[ssa.Instruction]bool
+	aliasCache      map[string]map[string]*types.Package
 	safety          bool
 	defaultBound    int
 	maxInlineDepth  int
@@ -47,7 +48,7 @@ type debugVal struct {
 func newEngine(root string) *Engine {
 	return &Engine{root: root, contracts: map[string]*Contract{}, specFuncs: map[string]*SpecFunc{}, ghosts: map[string]*GhostVar{},
 		typeCache: map[string]types.Type{}, funcIDs: map[*ssa.Function]int64{}, funcByKey: map[string]*ssa.Function{}, ssaPkgs: map[string]*ssa.Package{},
-		mutableGlobals: map[*ssa.Global]bool{}, debugCache: map[*ssa.Function]map[string][]debugVal{}, deadCache: map[*ssa.Function]map[ssa.Instruction]bool{}, safety: true, maxInlineDepth: 6, maxInlineInstrs: 400}
+		mutableGlobals: map[*ssa.Global]bool{}, debugCache: map[*ssa.Function]map[string][]debugVal{}, deadCache: map[*ssa.Function]map[ssa.Instruction]bool{}, aliasCache: map[string]map[string]*types.Package{}, safety: true, maxInlineDepth: 6, maxInlineInstrs: 400}
 }
 
 func goEnv() []string {
@@ -84,7 +85,7 @@ func (eng *Engine) load(patterns []string) error {
 	if nerr > 0 {
 		return fmt.Errorf("%d package load errors", nerr)
 	}
-	prog, _ := ssautil.AllPackages(pkgs, ssa.GlobalDebug)
+	prog, _ := ssautil.AllPackages(pkgs, ssa.GlobalDebug|ssa.InstantiateGenerics)
 	prog.Build()
 	eng.prog = prog
 	eng.fset = prog.Fset
@@ -137,7 +138,41 @@ func (eng *Engine) pkgByPath(path string) *types.Package {
 	panic(unsupported{"package not loaded: " + path})
 }
 
+// importAliases: per package, the names its files use for imported packages.
+func (eng *Engine) importAliases(from *types.Package) map[string]*types.Package {
+	if m, ok := eng.aliasCache[from.Path()]; ok {
+		return m
+	}
+	m := map[string]*types.Package{}
+	for _, p := range eng.allPkgs {
+		if p.PkgPath != from.Path() {
+			continue
+		}
+		for _, f := range p.Syntax {
+			for _, imp := range f.Imports {
+				path := strings.Trim(imp.Path.Value, "\"")
+				ip := p.Imports[path]
+				if ip == nil || ip.Types == nil {
+					continue
+				}
+				name := ip.Types.Name()
+				if imp.Name != nil {
+					name = imp.Name.Name
+				}
+				m[name] = ip.Types
+			}
+		}
+	}
+	eng.aliasCache[from.Path()] = m
+	return m
+}
+
 func (eng *Engine) pkgByName(name string, from *types.Package) *types.Package {
+	if from != nil {
+		if p, ok := eng.importAliases(from)[name]; ok {
+			return p
+		}
+	}
 	if from != nil {
 		for _, imp := range from.Imports() {
 			if imp.Name() == name {
